@@ -208,11 +208,15 @@ var vLoaded, vWaited []*module
 var vWaiterEdgeAtWait *module
 
 func vLoadStub(m *module, proj *Project) (starlark.StringDict, error) {
+	vAssert(vHeld() == 0, "M-LOCKS: a lock is held while a module file executes")
 	vLoaded = append(vLoaded, m)
 	return nil, nil
 }
 
 func vWaitStub(m *module, waiter *module) (starlark.StringDict, error) {
+	// wait blocks until the module has loaded: no lock may be held across it (the module being
+	// loaded needs the registry lock to load further modules and to register targets)
+	vAssert(vHeld() == 0, "M-LOCKS: a lock is held across the blocking wait for a module")
 	vWaited = append(vWaited, m)
 	if waiter != nil {
 		vWaiterEdgeAtWait = waiter.loading
